@@ -218,7 +218,16 @@ class Bounds:
             pass
         elif k == "call":
             nm = values.strip_generics(a[1]).split("::")[-1]
-            if nm == "output_len" and "digest" in a[1]:
+            if nm == "saturating_sub" and len(a[2]) == 2:
+                (xl, xh), (yl, yh) = sub(a[2][0]), sub(a[2][1])
+                lo, hi = max(lo, 0, xl - yh if yh != INF and xl != -INF else 0), min(hi, max(0, xh - yl) if xh != INF and yl != -INF else xh)
+            elif nm in ("min",) and len(a[2]) == 2:
+                (xl, xh), (yl, yh) = sub(a[2][0]), sub(a[2][1])
+                lo, hi = max(lo, min(xl, yl)), min(hi, min(xh, yh))
+            elif nm in ("max",) and len(a[2]) == 2:
+                (xl, xh), (yl, yh) = sub(a[2][0]), sub(a[2][1])
+                lo, hi = max(lo, max(xl, yl)), min(hi, max(xh, yh))
+            elif nm == "output_len" and "digest" in a[1]:
                 lo, hi = max(lo, 1), min(hi, 64)       # ring digests are at most 64 bytes (SHA-512)
             elif a[1] in self.W.prog.fns and depth < 3:
                 # crate-local accessor: bound by its (inlined) return value
